@@ -155,6 +155,15 @@ def updateTasksAux (N : Nat) : Tasks → List Upd → List (Nat × St) → Tasks
 def updateTasks (N : Nat) (ts : Tasks) (us : List Upd) : Tasks × List (Nat × St) × Option Err :=
   updateTasksAux N ts us []
 
+/-- `TaskManager._state_sub_cb`: what of a notification batch is handed to `_update_tasks`.  With `passesAll` (read from
+    the source by the translator) every task notification, in arrival order; the alternative shown for contrast keeps
+    only the last notification per task -/
+def lastPerUid (b : List Upd) : List Upd :=
+  b.foldr (fun u acc => if acc.any (fun x => x.uid = u.uid) then acc else u :: acc) []
+
+def subBatch (passesAll : Bool) (b : List Upd) : List Upd :=
+  if passesAll then b else lastPerUid b
+
 /-- a sequence of batches (each `_state_sub_cb` message is one batch) -/
 def runBatches (N : Nat) : Tasks → List (List Upd) → Tasks × List (Nat × St)
   | ts, []      => (ts, [])
